@@ -187,15 +187,21 @@ ReceiveAll(gg, s, body) ==
 \* Socket.poll() once the first get() has an item: returns <<packets, queue', finished>>
 \* A drained sentinel is re-put at the end of the queue.
 DrainIdx(q) == FirstIdx(q, LAMBDA x : x = NIL)
+MaxPk == 16   \* packets per payload (Payload.max_decode_packets)
+Min2(a, b) == IF a < b THEN a ELSE b
 Drain(q) ==
     \* done = net decrease of the unfinished counter; tdone = number of task_done() calls
-    \* (the counter transiently goes that low before a drained sentinel is put again)
+    \* (the counter transiently goes that low before a drained sentinel is put again).
+    \* At most MaxPk packets are taken; a sentinel met within that limit is put again.
     IF Head(q) = NIL THEN [pk |-> <<>>, q |-> Tail(q), done |-> 1, tdone |-> 1]
     ELSE LET i == DrainIdx(q)
-         IN IF i = 0 THEN [pk |-> q, q |-> <<>>, done |-> Len(q), tdone |-> Len(q)]
-            ELSE [pk |-> SubSeq(q, 1, i - 1),
+         IN IF i # 0 /\ i - 1 < MaxPk
+            THEN [pk |-> SubSeq(q, 1, i - 1),
                   q |-> Append(SubSeq(q, i + 1, Len(q)), NIL),
                   done |-> i - 1, tdone |-> i]
+            ELSE LET m == Min2(MaxPk, Len(q))
+                 IN [pk |-> SubSeq(q, 1, m), q |-> SubSeq(q, m + 1, Len(q)), done |-> m,
+                     tdone |-> m]
 
 DoDrain(gg, s) ==
     LET d == Drain(gg.ss[s].q)
